@@ -313,7 +313,13 @@ def explore(case, opts, rng, stats):
         if pending:
             model = pending.pop()
         else:
-            extra = [(d, "!=") for d in tie_nodes.values()]
+            # ties the exploration keeps running into: the solver's exact model lies off the tie surface but within what
+            # floating point can resolve (a sliver between two almost equal thresholds).  From then on a band of 1e-9 around
+            # those surfaces is left out of the coverage claim (stated in the evidence), not just the surface itself
+            banded = stats["tie_runs"] > 6
+            if banded:
+                stats["tie_bands"] = len(tie_nodes)
+            extra = [(d, "apart" if banded else "!=") for d in tie_nodes.values()]
             st, pt, dt = lw.find_model(extra, neg_paths=neg_paths, timeout_ms=opts.timeout_ms)
             stats["coverage_queries"] += 1
             if st == "unsat":
@@ -602,6 +608,7 @@ def decide_case(case, opts):
         paths, complete, reason = [], False, "unsupported: %r" % (e,)
     res["paths"] = len(paths)
     res["complete"] = complete
+    res["tie_bands"] = stats.get("tie_bands", 0)
     if not complete:
         res["inconclusive"].append("exploration incomplete: " + reason)
     funcs = set()
